@@ -52,6 +52,8 @@ struct MarchResult {
   bool absorbed = false;
   long last_cell = -1; // cell in which the target depth was reached
   bool tie_at_wall = false; // target depth reached within round-off of a wall
+  bool next_wall_is_box_face = false; // absorbed in a cell whose next wall along the ray is a non-periodic box face
+  bool wrap_into_finer = false; // crossed a periodic face into a cell smaller than the one it left
   bool capped = false;
   int steps = 0;
   Q min_abs_dir = 1;
@@ -72,9 +74,11 @@ inline MarchResult march(const RefGrid &G, const double p[3], const double dir[3
     if (sgn[i])
       r.min_abs_dir = std::min(r.min_abs_dir, fabsl(d[i]));
   }
+  CellBox prev;
+  bool have_prev = false;
   for (;;) {
     // leave or wrap
-    bool out = false;
+    bool out = false, wrapped_now = false;
     for (int i = 0; i < 3; ++i) {
       const Q top = G.A[i] + G.S[i];
       const bool below = sgn[i] < 0 ? (x[i] <= G.A[i]) : (x[i] < G.A[i]);
@@ -83,12 +87,14 @@ inline MarchResult march(const RefGrid &G, const double p[3], const double dir[3
         if (G.per[i]) {
           x[i] += G.S[i];
           --r.wraps[i];
+          wrapped_now = true;
         } else
           out = true;
       } else if (above) {
         if (G.per[i]) {
           x[i] -= G.S[i];
           ++r.wraps[i];
+          wrapped_now = true;
         } else
           out = true;
       }
@@ -101,6 +107,12 @@ inline MarchResult march(const RefGrid &G, const double p[3], const double dir[3
     }
     CellBox c;
     G.locate(x, sgn, c);
+    if (wrapped_now && have_prev)
+      for (int i = 0; i < 3; ++i)
+        if ((c.hi[i] - c.lo[i]) < (prev.hi[i] - prev.lo[i]) * (1 - 1e-9L))
+          r.wrap_into_finer = true;
+    prev = c;
+    have_prev = true;
     Q t[3], tmin = -1;
     for (int i = 0; i < 3; ++i) {
       if (sgn[i] == 0) {
@@ -128,6 +140,13 @@ inline MarchResult march(const RefGrid &G, const double p[3], const double dir[3
         x[i] += ta * d[i];
       r.absorbed = true;
       r.last_cell = c.id;
+      for (int i = 0; i < 3; ++i)
+        if (sgn[i] != 0 && !G.per[i] && t[i] <= tmin * (1 + 1e-12L)) {
+          const Q wall = sgn[i] > 0 ? c.hi[i] : c.lo[i];
+          const Q face = sgn[i] > 0 ? G.A[i] + G.S[i] : G.A[i];
+          if (fabsl(wall - face) <= 1e-12L * (fabsl(G.A[i]) + G.S[i]))
+            r.next_wall_is_box_face = true;
+        }
       break;
     }
     r.deposits.push_back({c.id, tmin});
